@@ -191,6 +191,9 @@ func parseContracts(file string, pkgDir string) ([]*FuncSpec, error) {
 			cur = nb
 		case "nosafety":
 			cur.NoSafety = true
+		case "proofonly":
+			// a contract case that is proved but never picked at a call site (callers see the other cases)
+			cur.ProofOnly = true
 		case "exitnonzero":
 			cur.ExitNonZero = true
 		case "driver":
@@ -709,6 +712,13 @@ func genGhost(fset *token.FileSet, dir string, specs []*FuncSpec) ([]string, err
 			names = append(names, std)
 		}
 	}
+	// packages of the tree a contract may name in a binder type although the source file does not import them
+	for n, path := range map[string]string{"ngapType": "free5gclib/ngap/ngapType"} {
+		if _, have := imports[n]; !have && regexp.MustCompile(`(^|[^.\w])`+n+`\.[A-Z]`).MatchString(noStr) {
+			imports[n] = path
+			names = append(names, n)
+		}
+	}
 	sort.Strings(names)
 	for _, n := range names {
 		if n == "vc" || n == "." || n == "_" {
@@ -892,8 +902,8 @@ func (p *Loaded) bindSpecs() {
 			continue
 		}
 		sp.SSAName = fnName(fn)
-		if _, dup := p.specs[sp.SSAName]; !dup {
-			p.specs[sp.SSAName] = sp // the first contract case is the one callers see by default
+		if old, dup := p.specs[sp.SSAName]; !dup || (old.ProofOnly && !sp.ProofOnly) {
+			p.specs[sp.SSAName] = sp // the first contract case (that is not proof-only) is the one callers see by default
 		}
 		if p.behaviors == nil {
 			p.behaviors = map[string][]*FuncSpec{}
